@@ -48,8 +48,6 @@ FINDINGS = [
      "{x #** y z}: a #** form at an odd position of a dict literal puts the None marker into `values`; compile() raises ValueError"),
     ("C10-augassign-sequence-target", r"^compile:SystemError:invalid node type \(N\) for augmented assignment$", "aug_bad_target",
      "(+= [] x), (//= #* x 7): _storeize accepts a list/tuple/starred target for an augmented assignment; compile() raises SystemError"),
-    ("C10-matchor-short", r"^compile:ValueError:MatchOr requires at least N patterns$", "short_or_pattern",
-     "(match x (|) y) / (| p): MatchOr with fewer than two alternatives; compile() raises ValueError"),
     ("C10-import-empty-names", r"^compile:ValueError:empty names on ImportFrom$", "import_empty_list",
      "(import m []) compiles to ImportFrom(names=[]); compile() raises ValueError"),
     ("C10-annotate-non-name", r"^compile:SystemError:invalid node type \(N\) for annotated assignment$", "annotate_bad_target",
@@ -60,23 +58,12 @@ FINDINGS = [
      "a form that compiles to statements only or to nothing ((do), (break), (del), (import), ...) used as an f-string value, "
      "comprehension iterable / condition / element, or match guard: the handler stores Result.expr (None) instead of "
      "force_expr, or positions a node by it (lineno=None); compile() raises ValueError"),
-    ("C10-empty-body", r"^compile:ValueError:(empty body on \w+|Try has neither except handlers nor finalbody)$", "has_empty_form",
-     "(for [x y] (require)), (try (finally (pragma))): body forms that compile to no statements leave For/If/Try with an "
-     "empty statement list; compile() raises ValueError"),
-    ("C10-falsy-literal-truth-test", r"^compile:TypeError:required field \"lineno\" missing from expr$", "tp_falsy_bound",
-     "(defclass :tp [#^ 0 T] C), (deftype :tp [(annotate T \"\")] A x): digest_type_params tests `x[1] and ...` on the bound "
-     "*model*, so a falsy literal (0, \"\", [], {}) is put into the AST uncompiled; compile() raises TypeError (the same defect "
-     "in assert was fixed by 50b6a93)"),
-    ("C10-match-as-wildcard", r"^compile:ValueError:can'_'_' in patterns$", "as_wildcard",
-     "(match x p :as _ y): `:as _` compiles to MatchAs(name='_'); compile() raises ValueError (the #* _ case was fixed by 24b6ab7)"),
+    ("C10-empty-body", r"^compile:ValueError:empty body on \w+$", "has_empty_form",
+     "(for [x y] (require)): body forms that compile to no statements leave For/AsyncFor/If with an empty statement list; "
+     "compile() raises ValueError (the try/finally case was fixed by c90ef71)"),
     ("C10-toplevel-nonlocal-list", r"^compile:TypeError:required field \"lineno\" missing from stmt$", "has_nonlocal",
      "(+= c (nonlocal c)): ResolveOuterVars.visit_OuterVar returns a list, which hy_compile places into the module body "
      "when the nonlocal form sits in the top-level statement list; compile() raises TypeError"),
-    ("C10-bare-unpack-mapping", r"^hy_compile:HyCompileError:IndexError: tuple index out of range$", "bare_unpack_mapping",
-     "[(unpack-mapping)], (f (unpack-mapping)): _compile_collect indexes expr[1] of an argument-less unpack-mapping form: "
-     "internal compiler error (HyCompileError)"),
-    ("C10-match-value-bare-dot", r"^compile:ValueError:patterns may only match literals and attribute lookups$", "dot_pattern_short",
-     "(match x (. y) z): a (. name) value pattern without attribute compiles to MatchValue(Name); compile() raises ValueError"),
     ("C10-constant-name-identifier", r"^compile:ValueError:identifier field can'_'(None|True|False)' constant$",
      "constant_name_in_deftype_or_pattern",
      "(deftype None 1), (match x \uff2eone y): a name that is or NFKC-normalises to None/True/False reaches an identifier field "
@@ -90,6 +77,12 @@ FINDINGS = [
 
 
 FIXED = [
+    ("C10-falsy-literal-truth-test", "f69d795", "(defclass :tp [#^ 0 T] C): a falsy type-parameter bound reached the AST uncompiled (TypeError from compile())"),
+    ("C10-matchor-short", "61b21a1", "(match x (|) y): MatchOr with fewer than two alternatives (ValueError from compile()); now a syntax error"),
+    ("C10-match-value-bare-dot", "d2a83e6", "(match x (. y) z): MatchValue(Name) (ValueError from compile()); now a syntax error"),
+    ("C10-match-as-wildcard", "8cfcf87", "(match x 1 :as _ 2): MatchAs(pattern, name='_') (ValueError from compile()); now a syntax error"),
+    ("C10-bare-unpack-mapping", "b5377ba", "[(unpack-mapping)]: IndexError in _compile_collect -> HyCompileError; now a syntax error"),
+    ("C10-finally-without-statements", "c90ef71", "(try 1 (finally (do))): Try with empty finalbody (ValueError from compile()); now `pass`"),
     ("C10-chainc-no-pairs", "aeaad9f", "(chainc x) compiled to Compare(ops=[], comparators=[]) (ValueError from compile()); the grammar now needs a pair"),
     ("C10-assert-falsy-message", "50b6a93", "(assert x 0): `if msg:` tested the truth of the message model (TypeError from compile()); now `is not None`"),
     ("C10-match-star-wildcard", "24b6ab7", "(match x [#* _] y) compiled to MatchStar(name='_') (ValueError from compile()); now the star wildcard"),
